@@ -81,3 +81,14 @@ TEXT.update({
         'ref': 'DESIGN.md section 6 C20, section 3.6', 'note': _NOTE_COMMON + ' GIL threads, line granularity; C-level re-entrancy inside xml.etree is not explored.',
         'technique': 'deterministic simulation of thread schedules: baton-passed real threads, settrace line events as pre-emption points, complete single-pre-emption sweep per program pair + seeded multi-switch search, cold fork per schedule'},
 })
+
+
+# ---- final wording (supersedes the entries above where present)
+TEXT['C06']['level'] = ('Conservation invariant checked after every step of seeded histories (emphasis on removal / replacement / forward adds after a particle was duplicated, re-homing by intelligent choice, re-use of detached children, rejected calls in between) against a shadow kept by the simulator: ordered view is a permutation of the insertion view, insertion view equals successful adds minus removes with replacements substituted, a same-name replacement takes the replaced child\'s place in the ordered view, parent links, removed children orphaned, serialised output holds each child once.')
+TEXT['C12']['level'] = ('Two workloads: unique-arrangement words (all arrangements enumerated exactly on the automaton, words <= 8) fed in seeded permutations - every add accepted, ordered view and serialisation (plain and with intelligent choice) equal to that arrangement - and arbitrary accepted histories followed by a still-compatible child; acceptance, order and serialisability are judged by the automaton.')
+TEXT['C13']['level'] += ' Schema-driven probes: for every derived/base simple-type pair and every complexContent extension of the XSD the base (or sibling) is used first, then a fresh element of the restricted type is offered what it must reject; removes addressed to a child of another document; xsd_check switched after construction.'
+TEXT['C16']['level'] += ' Additionally 250 histories per run are re-executed under another PYTHONHASHSEED and must serialise identically (clause serialisation-depends-on-hash-seed), and a required attribute holding an accepted empty value must not be reported missing.'
+TEXT['C17']['level'] += ' After a successful write the file is compared with to_string() before and after the write; parsing (also of damaged files) must behave identically under every default encoding. The mount is a real scratch directory, so implementations through os.open / tempfile / os.replace are judged like builtins.open ones.'
+TEXT['C18']['level'] += ' From a checked serialisation root every element that is itself checked must be valid, also below unchecked elements (the setting is per element); children that left a checked element are transplanted into unchecked ones; write() and deepcopy of unchecked trees must not raise.'
+TEXT['C09']['level'] += ' Foreign documents also come in UTF-16, ISO-8859-1/-2, windows-1252 and with a BOM, padded with comments so that read-block boundaries move over the document; pinned excerpts of a real-world export shipped with the repository are part of the inputs.'
+TEXT['C20']['level'] = ('Real OS threads run generated build-validate-serialise programs (incl. misuse and refused validations) on their own documents; a baton scheduler driven by sys.settrace line events decides who runs. The single-pre-emption family named by the property (thread A parked at its k-th library line, B runs to completion, A resumes) is swept over every first-use window - every invocation that executes a line for the first time for its owner class, and the first invocation of every method on every object shared between two passes of the program - completely in thorough (plus every k for two small pairs) and up to a cap in quick; plus seeded PCT-style multi-switch schedules for pairs and triples. Per thread the outcomes must equal those of the program alone in a cold process; shared attribute tables and a canary must equal the sequential run. Every schedule executes in a fresh fork of the cold zygote.')
